@@ -324,6 +324,22 @@ class LayoutExtractor:
             general = [t for t in terms if 'AUG_' in t]
             if len(general) == 1 and all(t == general[0] or t == zero_iter(general[0]) for t in terms):
                 terms = general
+            else:
+                # the same for a list filled in a loop: ``[a, *MAP(x)]`` is the general list, the path with zero iterations
+                # shows it without its starred parts
+                def no_stars(t):
+                    e0 = ast.parse(t, mode='eval').body
+
+                    class _S(ast.NodeTransformer):
+                        def visit_List(self, n):
+                            n = self.generic_visit(n)
+                            n.elts = [x for x in n.elts if not (isinstance(x, ast.Starred) and isinstance(x.value, ast.Call)
+                                                                  and isinstance(x.value.func, ast.Name) and x.value.func.id == 'MAP')]
+                            return n
+                    return ast.unparse(_S().visit(e0))
+                general = [t for t in terms if '*MAP(' in t]
+                if len(general) == 1 and all(t == general[0] or t == no_stars(general[0]) for t in terms):
+                    terms = general
         if len(terms) != 1 or o.fall:
             raise AnalysisError('%s: %s does not return one expression on all paths (%s)' % (m.loc(), m.qualname, terms[:3]))
         try:
@@ -576,6 +592,25 @@ class LayoutExtractor:
                 a = e.args[0]
 
                 def seq_parts(a):
+                    if isinstance(a, (ast.List, ast.Tuple)) and any(isinstance(x, ast.Starred) for x in a.elts):
+                        # [a, *MAP(ITEM(self.items).encode()), b]: a list filled by a loop over self.items
+                        out = []
+                        for x in a.elts:
+                            if isinstance(x, ast.Starred):
+                                v = x.value
+                                ok = isinstance(v, ast.Call) and isinstance(v.func, ast.Name) and v.func.id == 'MAP' and len(v.args) == 1
+                                el = v.args[0] if ok else None
+                                if ok and isinstance(el, ast.Call) and not el.args and isinstance(el.func, ast.Attribute) \
+                                        and el.func.attr == 'encode' and isinstance(el.func.value, ast.Call) \
+                                        and isinstance(el.func.value.func, ast.Name) and el.func.value.func.id == 'ITEM' \
+                                        and len(el.func.value.args) == 1:
+                                    src = attr_chain(el.func.value.args[0])
+                                    if src and len(src) == 2 and src[0] == 'self':
+                                        out.append(('v', 'items', src[1]))
+                                        continue
+                                return None
+                            out.extend(self._parts(x, c, locs, f))
+                        return out
                     if isinstance(a, (ast.List, ast.Tuple)) and not any(isinstance(x, ast.Starred) for x in a.elts):
                         out = []
                         for x in a.elts:
